@@ -188,6 +188,9 @@ func (r *Run) runSlice(spec ChildSpec, a, b uint64, id int) {
 			r.Inconclusive("child %s/%s died at case %d (%s) but the case alone passes", spec.Monitor, spec.Stream, killer, res2.how)
 		} else {
 			sig, top := crashSignature(res3.stderr)
+			if SigRewrite != nil {
+				sig = SigRewrite(r.Property, sig, res3.stderr)
+			}
 			v := Violation{Stream: spec.Stream, Index: killer, Sig: sig,
 				What:   fmt.Sprintf("child process %s on case %d of stream %s: %s", res3.how, killer, spec.Stream, top),
 				Detail: map[string]any{"monitor": spec.Monitor, "extra": spec.Extra, "stderr_tail": tail([]byte(res3.stderr), 3000), "case": readCase(sb)}}
@@ -256,6 +259,10 @@ func crashSignature(stderr string) (sig, top string) {
 	}
 	return "crash:" + frame, kind + " at " + frame
 }
+
+// SigRewrite lets a check refine crash signatures (e.g. C13 turns an
+// out-of-memory death into an allocation-site signature).
+var SigRewrite func(property, sig, stderr string) string
 
 type childResult struct {
 	ok     bool
